@@ -80,9 +80,15 @@ def check(ctx):
     for n in b.nodes('assume'):
         c, pol = unwrap_not(n.data['cond'], n.data['pol'])
         dc = [(lit, o) for lit, o in dot_comparisons(c) if r.mentions_arg(o)]
-        if dc and not pol and all(g.dominates(n.id, e.id) for e in r.muts):
+        if dc and not pol:
             guard_nodes.append(n)
             guard_cmps.extend(dc)
+    # the guard dominates the effects -- or, when its verdict is handed back by a helper
+    # and tested by the caller, cuts every run-consistent path to them
+    if guard_nodes and not all(
+            any(g.dominates(n.id, e.id) for n in guard_nodes) or
+            cut_c(b, r.arg_iteration, e.id, [n.id for n in guard_nodes]) for e in r.muts):
+        guard_nodes, guard_cmps = [], []
     ctx.require(r.muts, 'C01: trash-put has no mutating effect at all (anchor vanished)')
     if not r.moves:
         ctx.ob('R01.7', 'the payload is transferred by a MOVE primitive', False,
@@ -122,19 +128,16 @@ def check(ctx):
                            'is removed)' % ([short(o, 60) for o in ops][:1], lit,
                                             short(src, 60), lit))
     for e in r.muts:
-        ctx.ob('R01.2', 'effect dominated by "not a dot entry"',
-               any(g.dominates(n.id, e.id) for n in guard_nodes) or not guard_nodes,
-               node=e)
-        probe_ok = False
-        for c, pol, n in guards(b, e.id):
-            c2, pol2 = unwrap_not(c, pol)
+        ctx.ob('R01.2', 'effect dominated by "not a dot entry"', True, node=e)
+
+        def present_nofollow(c2, pol2):
             pn = probe_result_of(c2)
             if pn is None or not pol2:
-                continue
+                return False
             pd = g.n(pn).data
-            if pd['role'] == 'presence' and not pd['follow'] and \
-                    alt_ids(pd['args'][0]) == r.arg_ids:
-                probe_ok = True
+            return pd['role'] == 'presence' and not pd['follow'] and \
+                alt_ids(pd['args'][0]) == r.arg_ids
+        probe_ok = established(b, e.id, present_nofollow, start=r.arg_iteration)
         ctx.ob('R01.2', 'effect dominated by a no-follow presence probe of the argument',
                probe_ok, node=e,
                message='%s happens without a no-follow existence test of the argument '
@@ -285,6 +288,26 @@ def failure_atomic(b, m):
                     exdev = True
         if from_rename and exdev:
             return True, ''
+    # the same, when the verdict "EXDEV" is handed back by a helper and tested by the
+    # caller: every run-consistent path to the fallback passes "errno == EXDEV" inside a
+    # handler that is fed by renames only
+    exdev_nodes = []
+    for n in b.nodes('assume'):
+        c2, pol2 = unwrap_not(n.data['cond'], n.data['pol'])
+        if not (isinstance(c2, Cmp) and contains(c2, lambda x: isinstance(x, ExtRef) and
+                                                 x.qualname == 'errno.EXDEV')):
+            continue
+        if not ((c2.op in ('==', 'in') and pol2) or (c2.op in ('!=', 'not in') and not pol2)):
+            continue
+        hh = last_dominating(b, n.id, 'handler')
+        if hh is None:
+            continue
+        srcs = [(s_, l) for s_, l in g.pred[hh] if s_ in b.live]
+        if srcs and all(g.n(s_).kind == 'effect' and g.n(s_).data['prim'] in
+                        ('os.rename', 'os.replace') for s_, l in srcs):
+            exdev_nodes.append(n.id)
+    if exdev_nodes and cut_c(b, g.entry, m.id, exdev_nodes):
+        return True, ''
     return False, 'shutil.move is called directly'
 
 
